@@ -215,40 +215,40 @@ Proof. exact (uniform_new_sample_in_range widening_mul_spec_holds wrapping_add_s
 Print Assumptions C20_uniform_new_sample_in_range.
 
 (* Rng::gen_range, spelled out for the two readings *)
-Theorem C20_gen_range_inclusive_unsigned : range_premises ->
+Theorem C20_gen_range_inclusive_unsigned :
   forall fuel dbg w n low high s r rest,
     0 < w -> (0 < n)%nat -> wf w n low -> wf w n high -> bytes_ok s ->
     uval w low <= uval w high ->
     gen_range_inclusive fuel false dbg w low high s = RVal r rest ->
     wf w n r /\ uval w low <= uval w r <= uval w high.
-Proof. exact U_gen_range_inclusive_in_range. Qed.
+Proof. exact (U_gen_range_inclusive_in_range range_premises_holds). Qed.
 Print Assumptions C20_gen_range_inclusive_unsigned.
 
-Theorem C20_gen_range_inclusive_signed : range_premises ->
+Theorem C20_gen_range_inclusive_signed :
   forall fuel dbg w n low high s r rest,
     0 < w -> (0 < n)%nat -> wf w n low -> wf w n high -> bytes_ok s ->
     sval w low <= sval w high ->
     gen_range_inclusive fuel true dbg w low high s = RVal r rest ->
     wf w n r /\ sval w low <= sval w r <= sval w high.
-Proof. exact I_gen_range_inclusive_in_range. Qed.
+Proof. exact (I_gen_range_inclusive_in_range range_premises_holds). Qed.
 Print Assumptions C20_gen_range_inclusive_signed.
 
-Theorem C20_gen_range_unsigned : range_premises -> I_overflowing_sub_spec ->
+Theorem C20_gen_range_unsigned :
   forall fuel dbg w n low high s r rest,
     0 < w -> (0 < n)%nat -> wf w n low -> wf w n high -> bytes_ok s ->
     uval w low < uval w high ->
     gen_range fuel false dbg w low high s = RVal r rest ->
     wf w n r /\ uval w low <= uval w r < uval w high.
-Proof. exact U_gen_range_in_range. Qed.
+Proof. exact (U_gen_range_in_range range_premises_holds I_overflowing_sub_spec_holds). Qed.
 Print Assumptions C20_gen_range_unsigned.
 
-Theorem C20_gen_range_signed : range_premises -> I_overflowing_sub_spec ->
+Theorem C20_gen_range_signed :
   forall fuel dbg w n low high s r rest,
     0 < w -> (0 < n)%nat -> wf w n low -> wf w n high -> bytes_ok s ->
     sval w low < sval w high ->
     gen_range fuel true dbg w low high s = RVal r rest ->
     wf w n r /\ sval w low <= sval w r < sval w high.
-Proof. exact I_gen_range_in_range. Qed.
+Proof. exact (I_gen_range_in_range range_premises_holds I_overflowing_sub_spec_holds). Qed.
 Print Assumptions C20_gen_range_signed.
 
 (* ---------- in_range, total form ----------
